@@ -16,6 +16,7 @@ From Coq Require Import List ZArith NArith Permutation.
 From AGH Require Import Base.Run Model.Dhcp4 Proofs.Dhcp4 Proofs.Dhcp4Names Proofs.Dhcp4Disk Proofs.Dhcp4Alloc.
 From AGH Require Import Model.Dhcp4Admin Proofs.Dhcp4Admin.
 From AGH Require Model.Dhcp4Bitset Proofs.Dhcp4Bitset.
+From AGH Require Import Model.Dhcp4Expiry Proofs.Dhcp4Expiry.
 Import ListNotations.
 Local Open Scope N_scope.
 
@@ -393,3 +394,40 @@ Example C10_bitset_example :
   Dhcp4Bitset.is_set s 130 = true /\ Dhcp4Bitset.is_set s 1 = false /\ Dhcp4Bitset.is_set s 128 = false /\
   s <> None.
 Proof. exact Proofs.Dhcp4Bitset.bitset_example. Qed.
+
+(** * The expiry in the lease file is an instant (db.go fromLease / toLease, Model/Dhcp4Expiry.v)
+
+    [zone] is the offset from UTC (seconds) of the time zone of the process
+    that writes the file: fromLease writes the local wall-clock reading at
+    whole seconds with its offset, toLease subtracts the offset again.  The
+    offset cancels: whatever the zone of the writer (and of the reader), what
+    is read back is the expiry at whole seconds, rounded down (less than a
+    second lost, never a later instant), which is what [db_lease] says in
+    every theorem about restarts above.  The variant "local wall clock
+    labelled Z" shifts every expiry by the offset: refuted, five hours west
+    of UTC a lease with an hour left reads back as expired. *)
+Theorem C10_expiry_roundtrip_any_zone : forall zone e,
+  read_expiry (write_expiry zone e) = trunc_s e.
+Proof. exact expiry_roundtrip_any_zone. Qed.
+Print Assumptions C10_expiry_roundtrip_any_zone.
+
+Theorem C10_expiry_resolution : forall zone e,
+  let e' := read_expiry (write_expiry zone e) in (e' <= e < e' + ns_per_s)%Z.
+Proof. exact expiry_resolution. Qed.
+Print Assumptions C10_expiry_resolution.
+
+Theorem C10_db_lease_any_zone : forall zone l,
+  l_static l = false -> l_exp (db_lease l) = read_expiry (write_expiry zone (l_exp l)).
+Proof. exact db_lease_any_zone. Qed.
+Print Assumptions C10_db_lease_any_zone.
+
+Theorem C10_expiry_local_as_z_refuted :
+  exists zone e now, (now < e)%Z /\ (read_expiry (write_expiry_local_as_z zone e) < now)%Z /\
+                     read_expiry (write_expiry_local_as_z zone e) <> trunc_s e.
+Proof. exact local_as_z_roundtrip_refuted. Qed.
+Print Assumptions C10_expiry_local_as_z_refuted.
+
+Example C10_expiry_example :
+  write_expiry 19800 1790000000123456789 = (1790019800, 19800)%Z /\
+  read_expiry (write_expiry 19800 1790000000123456789) = 1790000000000000000%Z.
+Proof. exact expiry_example. Qed.
